@@ -298,6 +298,13 @@ theorem C10_witness_control :
     libRoundtrip .lit8 [0x18] = some [0x18] := by
   decide +kernel
 
+/-- both fill paths build the appearance with `WinAnsiEncoding.encode_strict` first: "✓" is refused,
+"Añ€" is accepted (and then stored as UTF-8 bytes) -/
+theorem C10_witness_fill_refuses :
+    fillAccepts [0x2713] = false ∧ fillAccepts [0x416] = false ∧ fillAccepts [0x1F600] = false ∧
+    fillAccepts [0x41, 0xF1, 0x20AC] = true := by
+  decide +kernel
+
 /-! ## T3 — the repair is right for every text -/
 
 theorem fix_lib_readLit (s rest : List Nat) :
